@@ -18,6 +18,7 @@ import time
 
 sys.path.insert(0, os.path.dirname(os.path.abspath(__file__)))
 import core
+import bounded as bounded_mod
 import kani
 import vpenv
 
@@ -123,6 +124,7 @@ def main():
         cov.setdefault('obligations', 0)
         return finish(2)
 
+    out_of_reach_msg = None
     obligations = []   # dict(name, backend, status, time_s, rlimit)
     failures = []      # dict(obligation, backend, message, detail…)
     verus_info = None
@@ -131,11 +133,9 @@ def main():
     # ------------------------------------------------------------------ Verus
     if P.get('verus'):
         try:
-            woven = core.weave_tree(os.path.join(scratch, 'woven'))
+            woven, res, fails, hard, auto_ext = core.verify_isolating(scratch, ['--rlimit', RLIMIT], log=log)
         except core.Inconclusive as e:
             return inconclusive(str(e))
-        res = core.run_verus(woven, ['--rlimit', RLIMIT])
-        fails, hard = core.classify(woven, res)
         fr = core.function_results(res)
         if res['json'] is None:
             return inconclusive('verus produced no result: ' + res['stderr'][-400:].replace('\n', ' '))
@@ -145,6 +145,15 @@ def main():
             where = ', '.join(f"{s['file']}:{s.get('line')}" for s in h['spans'][:2])
             return inconclusive(f'woven crate rejected by Verus before verification ({h["message"][:200]} @ {where})')
         pats = [re.compile(p) for p in P['verus']]
+        # a function this property depends on could not be brought before the verifier on this tree
+        out_of_reach = [(core.norm_owner(f'{core.mod_of(f)}::{fp}'), why) for (f, fp, why) in auto_ext]
+        mine = [(n, why) for (n, why) in out_of_reach if any(p.search(n) for p in pats)]
+        if mine:
+            out_of_reach_msg = ('function(s) under contract use a construct Verus does not support, body left unverified: '
+                                + '; '.join(f'{n} ({why[:120]})' for n, why in mine))
+            if not P.get('bounded'):
+                return inconclusive(out_of_reach_msg)
+        cov['auto_external'] = [n for n, _ in out_of_reach]
         matched = {p.pattern: 0 for p in pats}
         owner_pats = [re.compile(p) for p in P.get('owners', P['verus'])]
         for (mod, fn, ok, t_us, rl) in fr:
@@ -156,7 +165,7 @@ def main():
                 matched[p.pattern] += 1
             obligations.append({'name': name, 'backend': 'verus/z3', 'status': 'discharged' if ok else 'failed',
                                 'time_s': round((t_us or 0) / 1e6, 3), 'rlimit': rl})
-        missing = [p for p, n in matched.items() if n == 0]
+        missing = [p for p, n in matched.items() if n == 0 and not any(re.search(p, nm) for nm, _ in out_of_reach)]
         if missing:
             return inconclusive(f'vacuity guard: no verified item matches {missing} (function renamed or removed?)')
         rl_hit = [h for h in hard if h['kind'] == 'rlimit']
@@ -193,7 +202,7 @@ def main():
                                 ' '.join(l for l in kr['out'].splitlines() if l.startswith('error'))[:300])
         for h in harnesses:
             r = kr['results'][h]
-            bounded = h in P.get('bounded', [])
+            bounded = h in P.get('kani_bounded', [])
             st = {'SUCCESSFUL': 'discharged', 'FAILED': 'failed'}.get(r['status'], 'missing')
             if st == 'missing':
                 return inconclusive(f'kani harness {h} produced no result')
@@ -204,6 +213,35 @@ def main():
                 failures.append({'obligation': f'kani::{h}', 'backend': 'kani/cbmc', 'kani_harness': h,
                                  'message': '; '.join(r['failed_checks'])[:600] or f'{r["failed"]} of {r["checks"]} checks failed'})
         kani_info = {'cmd': kr['cmd'].replace(scratch, '<scratch>'), 'wall_s': round(kr['wall_s'], 2)}
+
+    # ------------------------------------------------------------------ bounded differential harness
+    # (replay engine for failed obligations; bounded stand-in for the trusted base and for out-of-reach functions)
+    bres = None
+    if P.get('bounded'):
+        bres = bounded_mod.run(scratch, P['bounded'], tier)
+        if bres['build_error']:
+            if failures or out_of_reach_msg:
+                log('bounded harness does not build against this tree: ' + bres['build_error'][-300:])
+            else:
+                return inconclusive('bounded harness does not build against the edited tree: ' + bres['build_error'][-300:].replace('\n', ' '))
+        elif not bres['ok']:
+            return inconclusive('bounded harness crashed: ' + bres.get('stderr', '')[-300:].replace('\n', ' '))
+        cov['bounded_standins'] = cov.get('bounded_standins', []) + [
+            {'name': f'bounded::{c}', 'backend': 'bounded enumeration on the real code (NOT a proof)', 'cases': j['cases'],
+             'distinct_inputs': j['distinct'], 'status': 'failed' if j['failure'] else 'passed', 'samples': j.get('samples', [])[:2]}
+            for c, j in bres['results'].items()]
+        cov['bounded_bound'] = 'see bounded/src/corpus.rs::describe(): ' + (
+            'messages per scalar/structured value incl. boundary lengths, raw forms, token sequences <= 3 (quick) / 4 (thorough) over 16 tokens, '
+            'full (tag x length 0-16,0xffff x fill) grid, every cut point, every single-fault (offset x 8 kinds), chunkings 1/2/3/7/whole, '
+            'every single cut with 0-2 not-ready results, Interrupted at every offset; add-sequences <= 4')
+    bounded_fail = [(c, j['failure']) for c, j in (bres['results'].items() if bres and bres['results'] else []) if j['failure']]
+
+    # a concrete failing input without a failed proof obligation: the defect sits in code left outside the verifier
+    # (trusted base / out-of-reach function) — still a real violation, replayed on the real code
+    if bounded_fail and not failures:
+        for c, msg in bounded_fail:
+            failures.append({'obligation': f'bounded::{c}', 'backend': 'bounded enumeration on the real code', 'message': msg,
+                             'bounded_case': msg})
 
     # ------------------------------------------------------------------ classify failures
     known = known_findings()
@@ -233,14 +271,13 @@ def main():
                     pb = {'found': False, 'error': str(e)}
                 rp['kani_playback'] = pb
                 found = bool(pb.get('found') and pb.get('replay_failed'))
-            elif P.get('replay'):
-                try:
-                    import replay
-                    rr = replay.search(prop, P['replay'], scratch, f)
-                except Exception as e:      # noqa
-                    rr = {'found': False, 'error': repr(e)}
-                rp['replay_search'] = rr
-                found = bool(rr.get('found'))
+            elif f.get('bounded_case'):
+                rp['replay_on_real_code'] = {'harness': 'bounded ' + ','.join(P['bounded']), 'failing_case': f['bounded_case']}
+                found = True
+            elif bounded_fail:
+                rp['replay_on_real_code'] = {'harness': 'bounded ' + ','.join(P['bounded']), 'failing_case': bounded_fail[0][1],
+                                             'all': bounded_fail}
+                found = True
             rp['failing_input_found'] = found
             if not found and f.get('hint_lost'):
                 # undecidable between proof brittleness and defect: do not alarm
@@ -256,6 +293,13 @@ def main():
             rc = 1
         if rc == 0:
             return inconclusive('obligation failed after a proof hint lost its anchor; no concrete failing input found')
+
+    if out_of_reach_msg and rc == 0:
+        if bres and bres['ok'] and not bounded_fail:
+            print(f'BOUNDED-STANDIN property={prop} {out_of_reach_msg[:300]} -- bounded harness {P["bounded"]} passed (not a proof)')
+            cov['out_of_reach'] = out_of_reach_msg
+        else:
+            return inconclusive(out_of_reach_msg)
 
     # ------------------------------------------------------------------ thorough extras
     if tier == 'thorough' and rc == 0 and woven is not None:
